@@ -218,7 +218,8 @@ class Run:
     def __init__(self, func_node, *, oracle=None, raiser=None, max_iter=2,
                  max_paths=20000, stable=None, params_env=None,
                  pure_calls=None, body=None, loop_iters=None,
-                 declared_raises=False, inline_resolver=None):
+                 declared_raises=False, inline_resolver=None,
+                 stmt_raiser=None):
         self.node = func_node
         self.oracle = oracle            # f(atom_ast, run) -> True/False/None
         self.raiser = raiser            # f(Event) -> None | set(names) | '*'
@@ -228,6 +229,7 @@ class Run:
         self.stable = stable or (lambda attr: False)
         self.pure_calls = pure_calls or set()
         self.declared_raises = declared_raises
+        self.stmt_raiser = stmt_raiser  # f(stmt) -> None | set(names) | '*'
         self.inline_resolver = inline_resolver
         self.inline_depth = 0
         self.inlined = []
@@ -1024,6 +1026,16 @@ class Run:
             ev = self.emit(sx, 'lookup-fails', s, None)
             out.append((sx, Signal('raise', None, origin=ev,
                                    types=set(names))))
+        if self.stmt_raiser is not None and isinstance(
+                s, (ast.Assign, ast.Expr, ast.Return, ast.AugAssign,
+                    ast.AnnAssign)):
+            types = self.stmt_raiser(s)
+            if types:
+                sx = st.fork()
+                ev = self.emit(sx, 'stmt-fails', s, None)
+                out.append((sx, Signal(
+                    'raise', None, origin=ev,
+                    types=None if types == '*' else set(types))))
         return out + m(s, st)
 
     def s_Pass(self, s, st):
